@@ -44,12 +44,11 @@ Proof.
 Qed.
 
 Lemma ladder_windows : forall meth site c r,
-  err_ok Windows (c_err c) = true -> known_win_mmaps Windows meth site = false ->
+  err_ok Windows (c_err c) = true ->
   demanded Windows meth site c = Some r -> method_outcome Windows meth site c = r.
 Proof.
-  intros meth site c r He Hk Hd.
-  unfold demanded, recovery, contract, nosuch_failure, method_outcome, inner, known_win_mmaps in *.
-  rewrite Hk.
+  intros meth site c r He Hd.
+  unfold demanded, recovery, contract, nosuch_failure, method_outcome, inner in *.
   destruct (g_win_partial meth), (g_win_fallback meth site); case_cond c.
 Qed.
 
@@ -57,7 +56,7 @@ Theorem ladder_model : forall p meth site c r,
   err_ok p (c_err c) = true -> known_class p meth site c = false ->
   demanded p meth site c = Some r -> method_outcome p meth site c = r.
 Proof.
-  intros p meth site c r He Hk Hd. unfold known_class in Hk. apply orb_false_iff in Hk as [Hk Hw]. destruct p.
+  intros p meth site c r He Hk Hd. unfold known_class in Hk. destruct p.
   - apply ladder_plain; auto.
   - apply ladder_plain; auto.
   - apply ladder_netbsd; auto.
@@ -87,11 +86,11 @@ Proof.
   split; [exists (Build_cond ESRCH Gone true) | exists (Build_cond EINVAL Gone true)]; vm_compute; auto 10.
 Qed.
 
-(* finding: Windows memory_maps() lets a failure of QueryDosDevice() out unconverted *)
-Theorem win_mmaps_refuted :
+(* the code before fix d6fc959 let a failure of QueryDosDevice() out of Windows memory_maps() unconverted *)
+Theorem win_mmaps_legacy_refuted :
   exists c, err_ok Windows (c_err c) = true /\ demanded Windows "memory_maps" "QueryDosDevice" c = Some RDenied
-            /\ method_outcome Windows "memory_maps" "QueryDosDevice" c = RRaw
-            /\ method_outcome Windows "open_files" "QueryDosDevice" c = RDenied.
+            /\ method_outcome_pre_d6fc959 Windows "memory_maps" "QueryDosDevice" c = RRaw
+            /\ method_outcome Windows "memory_maps" "QueryDosDevice" c = RDenied.
 Proof. exists (Build_cond WACCESS Alive false). vm_compute. auto. Qed.
 
 (* the PID-0 rule needs PID 0 to be listed: otherwise the error passes through *)
@@ -134,10 +133,10 @@ Lemma pair_windows_b : forall meth site1 site2 e1 e2 s z,
          end) = true.
 Proof.
   intros meth site1 site2.
-  unfold pair_demanded, second_route, pair_outcome, pair_known, known_class, known_pid0_unlisted, known_win_mmaps,
+  unfold pair_demanded, second_route, pair_outcome, pair_known, known_class, known_pid0_unlisted,
     demanded, recovery, contract, nosuch_failure, method_outcome, inner.
-  destruct (g_win_cmdline_pair meth site1 site2), (g_win_fallback meth site1), (seq site2 "proc_info"), (g_win_partial meth),
-    (g_win_mmaps_dos meth site1), (g_win_mmaps_dos meth site2); apply forall_enum; vm_compute; reflexivity.
+  destruct (g_win_cmdline_pair meth site1 site2), (g_win_fallback meth site1), (seq site2 "proc_info"), (g_win_partial meth);
+    apply forall_enum; vm_compute; reflexivity.
 Qed.
 
 Lemma pair_windows : forall meth site1 site2 e1 e2 s z r,
@@ -157,7 +156,7 @@ Lemma pair_sunos_b : forall meth site1 site2 e1 e2 s z,
          end) = true.
 Proof.
   intros meth site1 site2.
-  unfold pair_demanded, second_route, pair_outcome, pair_known, known_class, known_pid0_unlisted, known_win_mmaps,
+  unfold pair_demanded, second_route, pair_outcome, pair_known, known_class, known_pid0_unlisted,
     demanded, recovery, contract, nosuch_failure, method_outcome, inner.
   destruct (g_sunos_cred meth site1), (seq site2 "proc_basic_info"), (g_sunos_exe meth site1), (g_sunos_path meth site1),
     (g_sunos_thread meth site1); apply forall_enum; vm_compute; reflexivity.
@@ -185,18 +184,18 @@ Qed.
 
 Lemma known_pid0_windows meth site c : known_pid0_unlisted Windows meth site c = false.
 Proof. unfold known_pid0_unlisted. apply andb_false_r. Qed.
-Lemma known_class_windows meth site c : known_win_mmaps Windows meth site = false -> known_class Windows meth site c = false.
-Proof. intro H. unfold known_class. rewrite known_pid0_windows, H. reflexivity. Qed.
+Lemma known_class_windows meth site c : known_class Windows meth site c = false.
+Proof. unfold known_class. apply known_pid0_windows. Qed.
 
 Theorem retry_model : forall meth site k then_ s z r,
-  (forall e, then_ = Some e -> err_ok Windows e = true) -> known_win_mmaps Windows meth site = false ->
+  (forall e, then_ = Some e -> err_ok Windows e = true) ->
   retry_demanded meth site k then_ s z = Some r -> retry_outcome meth site k then_ s z = r.
 Proof.
-  intros meth site k then_ s z r He Hw Hd. unfold retry_demanded, retry_outcome in *.
+  intros meth site k then_ s z r He Hd. unfold retry_demanded, retry_outcome in *.
   destruct (g_win_partial meth).
   - destruct (33 <=? k); [congruence|]. destruct then_ as [e|]; [|congruence].
-    apply ladder_model; [apply (He e eq_refl) | apply known_class_windows; exact Hw | exact Hd].
-  - apply ladder_model; [reflexivity | apply known_class_windows; exact Hw | exact Hd].
+    apply ladder_model; [apply (He e eq_refl) | apply known_class_windows | exact Hd].
+  - apply ladder_model; [reflexivity | apply known_class_windows | exact Hd].
 Qed.
 
 Theorem wait_model : forall p w s,
